@@ -38,6 +38,11 @@ CLAIMS = {
   technique=TECH + "bounded plain harnesses on the real in-place scanners of topology-xml-nolibxml.c",
   text="ONE LEAF ONLY, BOUNDED: the four in-place scanners every byte of a nolibxml import goes through first (hwloc__nolibxml_import_next_attr, _find_child, _close_tag, _get_content/_close_content) on an ARBITRARY 7-byte buffer plus terminating NUL (the shape backend_init allocates), with their cursors anywhere inside it: every read and write stays inside the buffer, the functions return -1/0/1, and every cursor and returned pointer stays inside the buffer; find_child guarantees, and next_attr assumes, that an attribute text ends before the final byte; hwloc_nolibxml_look_init on the document heads '<topology version=\"2.0\"', '<topology', '<roo', an XML declaration line or nothing, followed by 4 arbitrary bytes, returns 0/-1 and leaves its tag cursor inside the buffer (sscanf model for the one format it uses). The property itself (any XML never corrupts memory, hangs or yields a broken topology; libxml backend; diff XML) needs the whole import over an unbounded tree and is not decided by this technique.",
   note="Trusted: strspn model, cbmc's strchr/strcmp/strncmp/strlen models; bounded (buffer 7+1 bytes, unwind 40; thorough tier 10+1)."),
+ "C12": dict(
+  category="proof", design_ref="DESIGN.md section 3 (C12)",
+  technique=TECH + "DFCC contracts on hwloc_bitmap_dup / hwloc_bitmap_copy (every set duplicated by dup goes through them); bounded plain harnesses on the real hwloc__topology_dup, hwloc__duplicate_object, hwloc__tma_dup_infos (topology.c) and hwloc_internal_distances_dup (distances.c) with the other duplication callees as logging / contract stubs",
+  text="LEAVES OF C12. Proved (all representations, loops closed by invariants): hwloc_bitmap_dup / hwloc_bitmap_tma_dup return a fresh bitmap with the same abstract value and leave the source unchanged; hwloc_bitmap_copy likewise into an existing bitmap. BOUNDED stand-ins (explicit small states, allocations succeed): hwloc__topology_dup of a topology made of one Machine object with every other field arbitrary copies flags, state, pid, the gp_index counter, type filters and depths, userdata callbacks and support bits into private storage, duplicates the allowed sets, duplicates the root field by field, calls the distances / memattrs / cpukinds duplications once each on (copy, source), refuses a topology that is not loaded with EINVAL and leaves the source untouched; hwloc__duplicate_object of a childless object copies every scalar field, the userdata pointer and the attribute bytes, duplicates the four sets into the right fields, makes private copies of name, subtype and infos and places the object in its level; hwloc__tma_dup_infos makes private copies of every pair; hwloc_internal_distances_dup builds a list with the same structures in order, consistent prev/next/first/last links, equal contents, an invalidated object cache and no storage shared with the source. Not decided: the recursion over children and the linking of siblings / cousins, memattrs and cpukinds duplication, independence under later modification of either copy (a whole-heap property), identical XML export, destroy in any order, allocation-failure paths (hwloc does not handle them on this path).",
+  note="Trusted: abstract set records in the dup driver (hwloc_bitmap_tma_dup proved separately), logging stubs for the three sub-duplications in the hwloc__topology_dup job, no-op stubs for component / PCI / distances / memattrs / cpukinds init; cbmc --no-malloc-may-fail in the bounded jobs."),
  "C13": dict(
   category="proof", design_ref="DESIGN.md section 3 (C13)",
   technique=TECH + "DFCC frame contract on hwloc_distances_add_create (proof); bounded plain harnesses on the real distances.c for the transforms, refresh_one, the get filters, removals and the add path",
@@ -83,7 +88,6 @@ CLAIMS = {
 NOT_APPLICABLE = {
  "C01": "global well-formedness of an unbounded, cyclically linked object tree produced by hwloc_topology_load through backends, files and ~3000 lines of insertion code: neither the state predicate (no inductive heap predicates in CBMC contracts) nor load as a contract subject is expressible (DESIGN.md section 6)",
  "C09": "every helper walks first_child/next_sibling/parent links of an unbounded tree and its spec quantifies over all objects; only the bitmap primitives are covered (C03)",
- "C12": "deep copy and absence of sharing over the whole heap; no ghost heap / separation predicates in CBMC contracts",
  "C17": "thread-safety: CBMC code contracts have no concurrency semantics",
  "C18": "snapshot discovery: file-system contents, component selection and fault sequences are outside any function contract",
  "C20": "command-line tools: process-level behaviour (argv, stdout) built on C01/C09",
